@@ -300,6 +300,9 @@ def to_sort_term(v, ty):
         return v.t
     if ty.name == "Dict" and v.ty.name == "Dict":
         return v.t
+    if ty.name in ("Dict", "List") and v.ty == JV:
+        # a JSON value that is a table / list: the object it embeds (inverse of the embedding)
+        return z3.Function("jv_to_Int", JVSort, I)(v.t)
     if ty.name == "Tuple" and v.ty.name == "Tuple" and len(ty.args) == len(v.ty.args):
         srt = sort_of(ty)
         return srt.mk(*[to_sort_term(x, a) for x, a in zip(v.t, ty.args)])
